@@ -24,6 +24,10 @@ type VBig struct {            // cosmossdk.io/math.Int (also Uint)
 type VDec struct { // cosmossdk.io/math.LegacyDec: raw = value * 10^18
 	Nil bool
 	T   *Term
+	// algebraic provenance used to simplify nested floor divisions exactly:
+	IntPart *Term // raw == IntPart * 10^18
+	QuoA    *Term // raw == floor(QuoA * 10^18 / QuoB), QuoA >= 0, QuoB > 0
+	QuoB    *Term
 }
 type VTime struct { // time.Time as unix seconds + nanoseconds (UTC, no monotonic reading)
 	Sec  *Term
